@@ -545,6 +545,10 @@ class Gen:
         self.loop_depth = 0
         # recursion: guarded by a decreasing first parameter
         body = self.block(depth - 1, r.randint(1, 3))
+        if self.feature('printf_calls', False) and r.random() < 0.45:
+            # the routine writes something itself, with values of its own pending
+            body.insert(0, ('printf', '[{} {}]', [('var', params[0]) if params else ('num', 1),
+                                                   ('num', r.choice([7, 8, 9]))]))
         final_locals = self.locals
         if returns:
             if r.random() < 0.4:
@@ -584,13 +588,25 @@ class Gen:
             return [('print', self.rvalue(1))]
         if k < 0.8:
             return [('println', self.rvalue(1))]
-        n = r.choice([0, 1, 2])
+        pc = self.feature('printf_calls', False)
+        n = r.choice([0, 1, 2, 2, 3]) if pc else r.choice([0, 1, 2])
         fmt = ' '.join(['{}'] * n) if n else 'x'
         if self.numeric_vars() and r.random() < 0.4:
             fmt += ' {' + r.choice(self.numeric_vars()) + '}'
         if r.random() < 0.3:
             fmt += ' {hue}'
-        return [('printf', fmt, [self.rvalue(1) for _ in range(n)])]
+        args = []
+        own = [f for f in self.routines if self.routines[f][1] and f != self.current_routine]
+        for i in range(n):
+            # a later value of a printf that is itself a call to a routine of the script (which may
+            # print on its own while the statement's earlier values are pending)
+            if pc and i > 0 and own and r.random() < 0.5:
+                f = r.choice(own)
+                args.append(('call', f, [self.rvalue(0, simple=True, allow_neg=True)
+                                         for _ in self.routines[f][0]]))
+            else:
+                args.append(self.rvalue(1))
+        return [('printf', fmt, args)]
 
     def stmt(self, depth):
         r = self.rng
